@@ -402,7 +402,15 @@ type replayFile struct {
 	LogHash  string          `json:"log_hash"`
 	Log      []string        `json:"event_log"`
 	Shrink   map[string]int  `json:"shrink"`
+	// Prelude: cases of the same workload that the worker had run, in this
+	// order, in the same process before the failing one. Present only when the
+	// case does not fail on its own: a replay runs them first.
+	Prelude []json.RawMessage `json:"prelude,omitempty"`
 }
+
+// shardsInUse: how many worker processes share a workload's indices (case i
+// runs in worker i mod shardsInUse, after case i - shardsInUse)
+var shardsInUse = 16
 
 func verifDir() string {
 	if d := os.Getenv("VERIF_DIR"); d != "" {
@@ -435,6 +443,37 @@ func reportViolation(prop *Property, tier string, seed int64, v violation) (stri
 	tape := append([]uint32(nil), t.Rec...)
 	o := runCaseMaybeIsolated(prop, w, c, isolated)
 	if o.Class != v.Class && !(w.NondetIsViolation && v.Class == "nondeterministic") {
+		// it may fail only after what its worker had run before it in the same
+		// process: replay it behind its predecessors in a fresh process
+		if !isolated && !w.Isolated {
+			var prelude []json.RawMessage
+			for k := 8; k >= 1; k-- {
+				if j := v.Index - k*shardsInUse; j >= 0 {
+					pc := w.Gen(j, caseTape(seed, prop.ID, w, j), tier)
+					pj, _ := json.Marshal(pc)
+					prelude = append(prelude, pj)
+				}
+			}
+			if len(prelude) > 0 {
+				cj, _ := json.MarshalIndent(c, " ", " ")
+				rf := replayFile{Property: prop.ID, Workload: w.Name, Tier: tier, Seed: seed, Index: v.Index, Class: v.Class, Msg: "(fails only after the preceding cases of the same worker have run in the same process) " + v.Msg, Tape: tape, Case: cj, Prelude: prelude, Shrink: map[string]int{"minimisation_abandoned": 1}}
+				dir := filepath.Join(outDir(), "replays", prop.ID)
+				os.MkdirAll(dir, 0o755)
+				path := filepath.Join(dir, fmt.Sprintf("%s-%s-%d-%d.json", v.Class, w.Name, seed, v.Index))
+				rj, _ := json.MarshalIndent(rf, "", " ")
+				if err := os.WriteFile(path, rj, 0o644); err == nil {
+					for attempt := 0; attempt < 2; attempt++ {
+						cmd := exec.Command(selfExe(), "replay", path)
+						cmd.Env = append(os.Environ(), "SIM_REPLAY_QUIET=1")
+						cmd.CombinedOutput()
+						if cmd.ProcessState != nil && cmd.ProcessState.ExitCode() == 1 {
+							return path, ""
+						}
+					}
+					os.Remove(path)
+				}
+			}
+		}
 		return "", fmt.Sprintf("violation %s#%d class %s did not re-occur when regenerated in the parent (got %q)", v.Workload, v.Index, v.Class, o.Class)
 	}
 	maxEvals := 1500
@@ -561,6 +600,12 @@ func replayMain(path string) int {
 		fmt.Fprintln(os.Stderr, "bad case:", err)
 		return 2
 	}
+	for _, pj := range rf.Prelude {
+		pc := w.New()
+		if err := json.Unmarshal(pj, pc); err == nil {
+			w.Run(pc, false)
+		}
+	}
 	o := runCaseMaybeIsolated(prop, w, c, rf.Class == "crash")
 	quiet := os.Getenv("SIM_REPLAY_QUIET") != ""
 	if o.Class == rf.Class || (rf.Class == "nondeterministic" && o.Class != "") {
@@ -684,6 +729,7 @@ func checkMain(propID, tier string) int {
 	}
 
 	// 2. isolated workloads (each case its own process), run from the parent
+	shardsInUse = nworkers
 	res := runWorkers(prop, tier, seed, nworkers, deadline)
 	for wi, w := range prop.Workloads {
 		if !w.Isolated {
